@@ -328,6 +328,14 @@ def main(ck):
         if pruned and ns > 0:
             nontriv.add(json.dumps([cf, c["condtext"], c["label"], c["qm"], [(p["m"], p["tags"], p["time"]) for p in c["points"]]], sort_keys=True))
         for msg in c["oracle"]:
+            if msg.startswith("samekey: points "):
+                # two rows with the same shard-key pairs in one group went to different shards: the stale batch key
+                a, b = int(msg.split()[2]), int(msg.split()[3])
+                if (stale_after_dropped_row(c, a) or stale_after_dropped_row(c, b)) and ck.match_finding(F_DROP):
+                    known_hits[F_DROP] = known_hits.get(F_DROP, 0) + 1
+                    if known_hits[F_DROP] == 1:
+                        ck.known_finding(F_DROP, "a row is hashed by the shard key of ANOTHER measurement of its write batch: %s" % msg[9:])
+                    continue
             if msg.startswith("prune: point "):
                 pi = int(msg.split()[2])
                 kind = classify(c, pi)
